@@ -597,7 +597,8 @@ Definition iter_add (l : clist) (it : iter) (x : N) (a : alloc_st) : res (stat *
   | (Some id, a1) =>
       let h0 := hset (l_heap l) id (fresh_node x) in
       do h1 <- link_after h0 (it_last it) id;
-      let tail' := if it_index it =? l_size l then id else l_tail l in
+      do nn <- load h1 id;
+      let tail' := if n_next nn =? 0 then id else l_tail l in
       Ok (CC_OK, upd l (l_size l + 1) (l_head l) tail' h1,
           {| it_index := it_index it + 1; it_last := it_last it; it_next := it_next it |}, a1)
   end.
@@ -641,8 +642,10 @@ Definition zip_add (l1 l2 : clist) (z : ziter) (e1 e2 : N) (a : alloc_st) : res 
       | (Some id2, a2) =>
           do h1 <- link_after (hset (l_heap l1) id1 (fresh_node e1)) (z1_last z) id1;
           do h2 <- link_after (hset (l_heap l2) id2 (fresh_node e2)) (z2_last z) id2;
-          let t1 := if z_index z =? l_size l1 then id1 else l_tail l1 in
-          let t2 := if z_index z =? l_size l2 then id2 else l_tail l2 in
+          do nn1 <- load h1 id1;
+          do nn2 <- load h2 id2;
+          let t1 := if n_next nn1 =? 0 then id1 else l_tail l1 in
+          let t2 := if n_next nn2 =? 0 then id2 else l_tail l2 in
           Ok (CC_OK, upd l1 (l_size l1 + 1) (l_head l1) t1 h1, upd l2 (l_size l2 + 1) (l_head l2) t2 h2,
               {| z_index := z_index z + 1; z1_last := z1_last z; z2_last := z2_last z; z1_next := z1_next z; z2_next := z2_next z |}, a2)
       end
